@@ -112,6 +112,9 @@ func classify(prop string, v *stats.Verdict, sc Scenario, ex execution, f facts)
 	if f.repFaultWithLaterPub {
 		v.Class("replayer-fault-then-publish")
 	}
+	for _, c := range f.classes {
+		v.Class(c)
+	}
 	for _, r := range ex.log {
 		if r.K == "hook" && r.Point == "sub:ctxdone" {
 			v.Class("subscribe-passed-ctxdone")
